@@ -776,8 +776,17 @@ class DBUDSServer(UDSServer):
             response_pdu: bytes | None = result[1]
 
             if response_pdu is not None:
-                response = service.UDSResponse.parse_dynamic(unhexlify(response_pdu))
-                return response
+                raw_response = unhexlify(response_pdu)
+
+                try:
+                    return service.UDSResponse.parse_dynamic(raw_response)
+                except Exception:
+                    # The recorded reply was malformed (it was logged together with a MalformedResponse);
+                    # replay its bytes as they were received.
+                    if raw_response[0] == UDSIsoServices.NegativeResponse:
+                        return service.RawNegativeResponse(raw_response)
+
+                    return service.RawPositiveResponse(raw_response)
 
             logger.info("Reset ECU due to missing response")
             self.state.reset()
